@@ -34,6 +34,12 @@ CHECKS['C12'] = dict(text='The templates are re-run with every numeric unconstra
              'exhausting the step budget is reported with a solver-produced description that is replayed on the native build.',
              note='semantic layer only (parser, file I/O outside); field/variant counts bounded; a path whose feasibility the solver cannot decide within its time limit is reported as inconclusive, not as pass',
              design='4/C12')
+CHECKS['C04'] = dict(text='Symbolic execution of the vftable construction for 1..2 (thorough 3) virtual functions with symbolic #[index] and table #[size]: '
+             'on accepted paths z3 proves every declared function sits in its slot (index, else predecessor+1), all other slots are private thiscall '
+             'placeholders, the generated vftable struct lists the same slots with size = slots * pointer width, and the type starts with one private '
+             'vftable pointer; on rejected paths it proves the indices/size were contradictory.',
+             note='slot arithmetic and table layout only; the run-time dispatch clause (wrapper loads the table and calls the slot) needs execution of emitted code and is not decided here; indices < 6, size < 8',
+             design='4/C04')
 NA = {}
 ALL = [json.loads(l)['id'] for l in open('properties.jsonl')]
 for p in ALL:
